@@ -124,6 +124,9 @@ impl Vm {
       self.store_ip();
     }
 
+    #[cfg(feature = "verif")]
+    self.verif_switch(fiber);
+
     self.fiber = fiber;
     self.fiber.activate();
 
@@ -195,6 +198,9 @@ impl Vm {
   pub(super) fn queue_blocked_fiber(&mut self, mut waiter: Ref<ChannelWaiter>) {
     match waiter.get_waiter_mut::<Ref<Fiber>>() {
       Some(fiber) => {
+        #[cfg(feature = "verif")]
+        self.verif_queued(*fiber);
+
         fiber.unblock();
         self.fiber_queue.push_back(*fiber)
       },
